@@ -51,6 +51,11 @@ def one(m, with_tests):
             res[prop] = (rc, rules)
         shutil.rmtree(ev, ignore_errors=True)
         want = m.get("expect", "kill")
+        if want == "documented-miss":
+            # a confirmed breaking change that this technique family cannot see (reason in its meta.json / DESIGN.md):
+            # reported as such, never counted as caught
+            caught = any(rc == 1 for rc, _ in res.values())
+            return m["name"], "ok", ("now caught: " + json.dumps({p: r for p, (rc, r) in res.items() if rc}) if caught else "DOCUMENTED MISS (see meta.json)")
         ok = all((rc == 1) == (want == "kill") for rc, _ in res.values())
         brief = {p: rules for p, (rc, rules) in res.items() if rc != 0}
         return m["name"], ("ok" if ok else "MISS" if want == "kill" else "FALSE-ALARM"), json.dumps(brief) if brief else "silent on " + ",".join(res)
@@ -64,7 +69,10 @@ def main():
     import glob
     for mf in sorted(glob.glob(os.path.join(HERE, "seeded", "*", "meta.json"))):
         meta = json.load(open(mf))
-        ms.append({"name": "seeded-" + meta["name"], "props": meta.get("check_props", [meta["property"]]), "patch": os.path.relpath(os.path.join(os.path.dirname(mf), "patch.diff"), HERE)})
+        ent = {"name": "seeded-" + meta["name"], "props": meta.get("check_props", [meta["property"]]), "patch": os.path.relpath(os.path.join(os.path.dirname(mf), "patch.diff"), HERE)}
+        if str(meta.get("expected_detection", "")).startswith("none"):
+            ent["expect"] = "documented-miss"
+        ms.append(ent)
     if pat:
         ms = [m for m in ms if any(p in m["name"] for p in pat)]
     bad = 0
